@@ -566,7 +566,7 @@ def transform_fn(text, spec):
         bs, be = cl['body']
         if newp is not None:
             edits.append((cl['params'][0], cl['params'][1], newp))
-        if contract and cl['has_ret']:
+        if contract and cl['has_ret'] and contract.lstrip().startswith('->'):
             raise ExtractError('closure %d already has a return type' % n)
         if cl['block']:
             if contract:
